@@ -29,6 +29,11 @@ CLAIMS = {
             "form writePos-pos<=capacity in front of every slot read in the same critical section, terminal Errored on overrun, "
             "reader/writer index agreement, wait-loop discipline, ID filter and event contents. Exactly-once in-order DELIVERY for all "
             "consumer speeds and 'replay == state' are not decided.", "§3 C02"),
+    "C12": ("table/constant agreement of the bookmark codec + guard-normal-form path-cut on the range and tail guards",
+            "Decides codec agreement and bounds, that a bookmark is accepted only inside the stated window (exact linear normal forms, so "
+            "an off-by-one or a dropped gap is a violation) and rejected with the invalid-bookmark class before any goroutine exists, that "
+            "every event gets the bookmark of its own position, the tail bounds and option exclusivity, and that no snapshot is re-sent on "
+            "resume. Equality of resumed and original streams over all histories is not decided.", "§3 C12"),
     "C03": ("path-cut + lockset on the store's Destroy/Watch, decision-table cuts on the blocking helpers, value provenance of the ready flag",
             "Decides that removal is gated by an empty finalizer set inside the collection's critical section, that a plain watch captures "
             "and sends the current state atomically with its start position (the mechanism behind 'no missed wake-up'), the event decision "
